@@ -237,6 +237,22 @@ def ecdh(ctx, P):
         order = any('param:1' in str(el[1]) and 'param:4' in str(el[5]) for el in a6)
         ctx.check(P + ':ecdh:param-order', 'R-seq', 'param = OID length, OID, public-key algorithm, KDF parameters, anonymous-sender string, fingerprint', order, function=b.path, table=a6)
         anon = ctx.f.consts.get('crypto::ecdh::ANON_SENDER')
+    # Z is the fixed-size x coordinate: it reaches the KDF without passing through an MPI (whose leading zero octets are stripped,
+    # 1 exchange in 256) — RFC 9580 11.5: "ZB ... the fixed-size octet string"
+    nz = 0
+    for p, r in sorted(ctx.f.bodies.items()):
+        if not re.match(r'crypto::ecdh::derive_shared_secret\w*$', p.split('::<')[0]) or r['kind'] == 'Closure':
+            continue
+        bb = ctx.wrap(r)
+        nz += 1
+        og = set()
+        for i in bb.returns():
+            pass
+        og = bb.operand_origins({'l': 0, 'pr': []})
+        lossy = sorted(x for x in og if re.search(r'^call:.*(types::mpi::Mpi::(from_slice|from_raw|from)$|strip_leading_zeros$|BigUint::(from_bytes_be|to_bytes_be)$|<types::mpi::Mpi as std::convert::From)', x))
+        ctx.check('%s:ecdh:shared-secret-fixed-width:%s' % (P, p), 'R-lost', 'the ECDH shared secret returned by %s keeps its fixed width (it does not pass through an MPI / integer form that drops leading zero octets)' % p.split('::')[-1],
+                  not lossy, function=p, missing=lossy or None)
+    ctx.floor(P + ':ecdh:shared-secret-floor', 'functions deriving the ECDH shared secret', nz, 2)
     users = sorted(p for p, r in ctx.f.bodies.items() if ctx.wrap(r).calls(r'crypto::ecdh::(kdf|build_ecdh_param)$') and 'ecdh' in p)
     ctx.check(P + ':ecdh:single-derivation', 'R-who', 'ECDH encryption and decryption derive the KEK through the same build_ecdh_param + kdf',
               any(u.endswith('derive_session_key') for u in users) and any(u.endswith('encrypt') for u in users), table=users)
